@@ -715,6 +715,20 @@ def observe_large(rng, ncases):
     return recs
 
 
+# --------------------------------------------------------------------------- TLC calls
+def _retry(fn, *a, **kw):
+    """A TLC process that was killed from outside (exit status 143/137: SIGTERM/SIGKILL, seen when several
+    checks share the machine) says nothing about the specification: run it again (at most twice)."""
+    for attempt in range(3):
+        try:
+            return fn(*a, **kw)
+        except T.TLCError as ex:
+            msg = str(ex)[:200]
+            if attempt < 2 and any(k in msg for k in ("rc=143", "rc=137", "rc=-15", "rc=-9")):
+                continue
+            raise
+
+
 # --------------------------------------------------------------------------- replay
 def replay(ctx, rep):
     """./check C15 quick --replay <file>: the recorded observation is judged again by the Trace spec
@@ -745,24 +759,24 @@ def run(ctx):
         # 1. TLC: the laws of the statement on the reference itself + ikron's generator against the reference
         laws = ("LawKron", "LawAdjoint", "LawAdjointOrdered", "LawKetProjector", "LawPTraceProduct", "LawPermuteKron",
                 "LawPermuteEmbed", "LawPKron", "LawPartialTranspose", "LawEmbed", "Emit")
-        f_laws = pool.submit(ctx.model_check, "MC_C15Laws", "MC_laws_%s.cfg" % tier, name="laws-on-reference",
+        f_laws = pool.submit(_retry, ctx.model_check, "MC_C15Laws", "MC_laws_%s.cfg" % tier, name="laws-on-reference",
                              require_actions=laws, workers=nw)
         # 2. TLC: sparse partial trace. The code variant holds where no subsystem has dimension 1 and something is
         #    kept, is rejected on the whole scope (the defect, at design level), and the proposed repair holds there.
-        f_ptr = [pool.submit(ctx.model_check, "MC_C15Ptr", "MC_ptr_%s.cfg" % tier, name="sparse-ptr(code, dims>1)",
+        f_ptr = [pool.submit(_retry, ctx.model_check, "MC_C15Ptr", "MC_ptr_%s.cfg" % tier, name="sparse-ptr(code, dims>1)",
                              require_actions=("Enter", "Compress", "KeepOne", "LoseOne"), workers=4),
-                 pool.submit(ctx.model_check, "MC_C15Ptr", "MC_ptr_repaired_%s.cfg" % tier, name="sparse-ptr(repaired, all dims)",
+                 pool.submit(_retry, ctx.model_check, "MC_C15Ptr", "MC_ptr_repaired_%s.cfg" % tier, name="sparse-ptr(repaired, all dims)",
                              require_actions=("Enter", "Compress", "KeepOne", "LoseOne"), workers=4)]
 
         def selftests():
-            r1 = T.run_tlc("MC_C15", "MC_nocorrect.cfg", ctx.spec_dir, workers=2, allow_violation=True, scratch=ctx.scratch)
-            r2 = T.run_tlc("MC_C15Ptr", "MC_ptr_defect.cfg", ctx.spec_dir, workers=2, allow_violation=True, scratch=ctx.scratch)
+            r1 = _retry(T.run_tlc, "MC_C15", "MC_nocorrect.cfg", ctx.spec_dir, workers=2, allow_violation=True, scratch=ctx.scratch)
+            r2 = _retry(T.run_tlc, "MC_C15Ptr", "MC_ptr_defect.cfg", ctx.spec_dir, workers=2, allow_violation=True, scratch=ctx.scratch)
             return r1, r2
 
         f_self = pool.submit(selftests)
 
         # 3. TLC: the I-model of kron(ownership=) implies "exactly the requested rows", for every case
-        res = ctx.model_check("MC_C15", "MC_%s.cfg" % tier, name="kron-ownership",
+        res = _retry(ctx.model_check, "MC_C15", "MC_%s.cfg" % tier, name="kron-ownership",
                               require_actions=("Match", "Slice", "Product", "Correct", "Emit"), workers=1)
         kcases = T.parse_printed_json(res.output)
         # one behaviour per case: match, slice, product, correct, done, emitted = 6 states
@@ -773,7 +787,7 @@ def run(ctx):
         # 4. S->C: every TLC case (dims, ri, rf) through qu.kron(ownership=); qu.ikron(ownership=) on a share of them
         krecs = replay_kron_cases(rng, kcases, thorough, ikron_every=(4 if quick else 1))
         ctx.sample({"kron-ownership": {k: krecs[len(krecs) // 2][k] for k in ("ops", "own", "got", "var", "exc")}})
-        f_kv = pool.submit(ctx.validate, "C15_Trace", "Trace.cfg", krecs, name="kron-ownership", ntraces=len(kcases), chunk=12000)
+        f_kv = pool.submit(_retry, ctx.validate, "C15_Trace", "Trace.cfg", krecs, name="kron-ownership", ntraces=len(kcases), chunk=12000)
 
         # (python only, while TLC judges the kron records) coordinates, Hamiltonian builders, larger random scope
         orecs = observe_dim_map(rng, thorough) + observe_lattice(rng, thorough)
@@ -838,7 +852,7 @@ def run(ctx):
                 ctx.sample({ev: {k: v for k, v in r_.items() if k not in ("tid", "src")}}, cap=8)
                 break
     nsel = len({r_["tid"] for r_ in srecs})
-    fails += ctx.validate("C15_Trace", "Trace.cfg", srecs + orecs + hrecs + lrecs, name="embed-permute-ptr-coords-ham-large",
+    fails += _retry(ctx.validate, "C15_Trace", "Trace.cfg", srecs + orecs + hrecs + lrecs, name="embed-permute-ptr-coords-ham-large",
                           ntraces=nsel + nham + 2, chunk=12000)
     drecs = orecs
 
